@@ -121,7 +121,7 @@ abbrev s1 : Slots := s0.set p (some op)
 
 /-- predicate of variable `w` while the op is being linked in: variables in `D` are done -/
 def PI (D : List Nat) (w : Nat) : Nat → Bool :=
-  if w ∈ D then upd (occV s0 w) p true else occV s0 w
+  if w ∈ D then upd (occVAt s0 w) p true else occVAt s0 w
 
 def nextRelI (D : List Nat) (w q : Nat) : Option PRel :=
   (nextOcc (PI s0 p D w) s0.length q).map (relAt (s1 s0 p op) w)
@@ -130,13 +130,13 @@ def prevRelI (D : List Nat) (w q : Nat) : Option PRel :=
 
 def E0 (w : Nat) : Option (PRel × PRel) := canonVarEnd s0 w
 def E1 (w : Nat) : Option (PRel × PRel) :=
-  match prevOcc (occV s0 w) p with
+  match prevOcc (occVAt s0 w) p with
   | some _ => E0 s0 w
   | none => (match E0 s0 w with
     | some (_, tail) => some (relAt (s1 s0 p op) w p, tail)
     | none => some (relAt (s1 s0 p op) w p, relAt (s1 s0 p op) w p))
 def E2 (w : Nat) : Option (PRel × PRel) :=
-  match nextOcc (occV s0 w) s0.length p with
+  match nextOcc (occVAt s0 w) s0.length p with
   | some _ => E1 s0 p op w
   | none => (match E1 s0 p op w with
     | some (head, _) => some (head, relAt (s1 s0 p op) w p)
@@ -163,7 +163,7 @@ theorem PI_cons_ne {D : List Nat} {v w : Nat} (h : w ≠ v) : PI s0 p (v :: D) w
   unfold PI; simp [h]
 
 theorem PI_cons_self {D : List Nat} {v : Nat} (h : v ∉ D) :
-    PI s0 p (v :: D) v = upd (occV s0 v) p true ∧ PI s0 p D v = occV s0 v := by
+    PI s0 p (v :: D) v = upd (occVAt s0 v) p true ∧ PI s0 p D v = occVAt s0 v := by
   unfold PI; simp [h]
 
 end Install
@@ -206,12 +206,12 @@ theorem installPrev_step (nv : Nat) (nb : Option Nat) (s0 : Slots) (p : Nat) (op
       congr 1
       obtain ⟨_, hnd_q, _, _⟩ := hwf q oq hsq
       have key : ∀ w, w ∈ oq.vars →
-          (if w = v ∧ prevOcc (occV s0 v) p = some q then some (⟨p, relv⟩ : PRel) else nextRelI s0 p op D w q)
+          (if w = v ∧ prevOcc (occVAt s0 v) p = some q then some (⟨p, relv⟩ : PRel) else nextRelI s0 p op D w q)
             = nextRelI s0 p op (v :: D) w q := by
         intro w hw
         by_cases hwv : w = v
         · subst hwv
-          have hq_occ : occV s0 w q = true := occV_of_mem hsq hw
+          have hq_occ : occVAt s0 w q = true := occV_of_mem hsq hw
           unfold nextRelI
           rw [hPv', hPv, nextOcc_insert hq_occ hq hpL]
           split <;> simp_all
@@ -219,14 +219,14 @@ theorem installPrev_step (nv : Nat) (nb : Option Nat) (s0 : Slots) (p : Nat) (op
           unfold nextRelI
           rw [PI_cons_ne s0 p hwv]
       have goal2 : oq.vars.map (fun w => nextRelI s0 p op (v :: D) w q)
-          = oq.vars.map (fun w => if w = v ∧ prevOcc (occV s0 v) p = some q then some (⟨p, relv⟩ : PRel)
+          = oq.vars.map (fun w => if w = v ∧ prevOcc (occVAt s0 v) p = some q then some (⟨p, relv⟩ : PRel)
               else nextRelI s0 p op D w q) := by
         apply List.map_congr_left
         intro w hw
         exact (key w hw).symm
       rw [goal2]
       unfold prevRel
-      cases hpo : prevOcc (occV s0 v) p with
+      cases hpo : prevOcc (occVAt s0 v) p with
       | none =>
         simp only [Option.map_none]
         apply List.map_congr_left
@@ -262,7 +262,7 @@ theorem installPrev_step (nv : Nat) (nb : Option Nat) (s0 : Slots) (p : Nat) (op
     apply List.ext_getElem?
     intro w
     unfold prevRel
-    cases hpo : prevOcc (occV s0 v) p with
+    cases hpo : prevOcc (occVAt s0 v) p with
     | some q' =>
       simp only [Option.map_some, List.getElem?_map]
       cases hw : (List.range nv)[w]? with
@@ -325,12 +325,12 @@ theorem installNext_step (nv : Nat) (nb : Option Nat) (s0 : Slots) (p : Nat) (op
       obtain ⟨_, hnd_q, _, _⟩ := hwf q oq hsq
       have hqL := slotAt_lt hsq
       have key : ∀ w, w ∈ oq.vars →
-          (if w = v ∧ nextOcc (occV s0 v) s0.length p = some q then some (⟨p, relv⟩ : PRel)
+          (if w = v ∧ nextOcc (occVAt s0 v) s0.length p = some q then some (⟨p, relv⟩ : PRel)
             else prevRelI s0 p op D w q) = prevRelI s0 p op (v :: D) w q := by
         intro w hw
         by_cases hwv : w = v
         · subst hwv
-          have hq_occ : occV s0 w q = true := occV_of_mem hsq hw
+          have hq_occ : occVAt s0 w q = true := occV_of_mem hsq hw
           unfold prevRelI
           rw [hPv', hPv, prevOcc_insert hq_occ hq hqL]
           split <;> simp_all
@@ -338,14 +338,14 @@ theorem installNext_step (nv : Nat) (nb : Option Nat) (s0 : Slots) (p : Nat) (op
           unfold prevRelI
           rw [PI_cons_ne s0 p hwv]
       have goal2 : oq.vars.map (fun w => prevRelI s0 p op (v :: D) w q)
-          = oq.vars.map (fun w => if w = v ∧ nextOcc (occV s0 v) s0.length p = some q
+          = oq.vars.map (fun w => if w = v ∧ nextOcc (occVAt s0 v) s0.length p = some q
               then some (⟨p, relv⟩ : PRel) else prevRelI s0 p op D w q) := by
         apply List.map_congr_left
         intro w hw
         exact (key w hw).symm
       rw [goal2]
       unfold nextRel
-      cases hno : nextOcc (occV s0 v) s0.length p with
+      cases hno : nextOcc (occVAt s0 v) s0.length p with
       | none =>
         simp only [Option.map_none]
         apply List.map_congr_left
@@ -379,7 +379,7 @@ theorem installNext_step (nv : Nat) (nb : Option Nat) (s0 : Slots) (p : Nat) (op
     apply List.ext_getElem?
     intro w
     unfold nextRel
-    cases hno : nextOcc (occV s0 v) s0.length p with
+    cases hno : nextOcc (occVAt s0 v) s0.length p with
     | some q' =>
       simp only [Option.map_some, List.getElem?_map]
       cases hw : (List.range nv)[w]? with
